@@ -583,6 +583,10 @@ pub fn payable_function(f: &File) -> Vec<Site> {
     for c in contracts(f.su) {
         for fd in functions(c) {
             let (pe, pi, payable) = fn_vis(fd);
+            if fd.body.is_some() && !pe && !pi && !payable {
+                // no visibility at all (public by default before 0.5): undecided
+                out.push(site(fd.loc.start(), false, "no-visibility", "Contract.part"));
+            }
             if fd.body.is_some() && pe && !payable {
                 // a `fallback` is a public/external function with a body like any other; constructors,
                 // `receive` (always payable) and modifiers stay undecided
@@ -1016,11 +1020,12 @@ pub fn unprotected_selfdestruct(f: &File) -> Vec<Site> {
                 continue;
             }
             let (pe, pi, _) = fn_vis(fd);
-            if !pe {
-                continue;
+            if !pe && pi {
+                continue; // internal / private: never
             }
-            // a `modifier` is not a function; two contradictory visibilities decide nothing
-            let odd_head = fd.ty == pt::FunctionTy::Modifier || pi;
+            // a `modifier` is not a function; two contradictory visibilities decide nothing; neither does a
+            // function without any visibility (public by default before 0.5, the era of `function ()`)
+            let odd_head = fd.ty == pt::FunctionTy::Modifier || pi || !pe;
             let only = fd.attributes.iter().any(|a| matches!(a, pt::FunctionAttribute::BaseOrModifier(_, b) if b.name.identifiers.iter().any(|i| i.name.contains("only"))));
             if only {
                 continue;
@@ -1205,11 +1210,17 @@ pub fn immutable_variables(f: &File) -> Vec<Site> {
                 }
             }
         }
-        if !any_ctor_assign {
-            continue; // never
-        }
         if w_fn.direct.contains(name) {
             continue; // never
+        }
+        if !any_ctor_assign {
+            // written in a constructor only as a tuple component, in parentheses or by a compound
+            // assignment / ++ / --: "assigned in a constructor" in a wider sense, undecided
+            let w_ctor = writes_in(f.items.iter().filter(|it| in_ctor(it)));
+            if w_ctor.direct.contains(name) || w_ctor.via_tuple.contains(name) {
+                out.push(site(sv.def.loc.start(), false, "constructor-written-by-tuple-or-compound", "Contract.part"));
+            }
+            continue; // otherwise never
         }
         let canonical = ty_class(&sv.def.ty) == TyClass::Value && good_own_ctor_assign && !w_outside.broad.contains(name) && !assembly_mentions(f, name);
         out.push(site(sv.def.loc.start(), canonical, if canonical { "assigned-only-in-constructor" } else { "constructor-assigned-undecided" }, "Contract.part"));
